@@ -23,7 +23,7 @@ from ..progs import Boom
 
 rs = bootstrap()
 
-FAIL_OPS = ['map', 'starmap', 'filter', 'scan', 'scan_reduce']
+FAIL_OPS = ['map', 'starmap', 'filter', 'scan', 'scan_reduce', 'scan_list']
 HANDLERS = ['ignore', 'error_map', 'router', 'none']
 DOWNSTREAM = ['none', 'running_sum', 'distinct', 'lag', 'count']
 
@@ -66,6 +66,15 @@ def fail_op(kind, F, mode):
         if mode == 'replaced':
             return [rs.ops.filter(lambda x: inF(x) or x % 3 != 0), rs.ops.map(lambda x: g_err(Boom(x)) if inF(x) else x)]
         return [rs.ops.filter(p)]
+    if kind == 'scan_list':
+        # a list-valued fold with a non-empty seed: a state slot that silently reads 0 instead of "not set" is visible
+        def accl(a, x):
+            chk(x)
+            return a + [x]
+        if mode == 'replaced':
+            return [rs.ops.scan(lambda s, x: (s[0], g_err(Boom(x))) if inF(x) else (s[0] + [x], s[0] + [x]), ([-7], None)),
+                    rs.ops.map(lambda s: s[1])]
+        return [rs.ops.scan(accl, [-7])]
     reduce = kind == 'scan_reduce'
 
     def acc(a, x):
@@ -82,7 +91,10 @@ def fail_op(kind, F, mode):
     return [rs.ops.scan(acc, 0, reduce=reduce)]
 
 
-def downstream(kind):
+def downstream(kind, listy=False):
+    if listy:
+        # the failing operator emits lists (scan_list): reduce them to ints first
+        return [rs.ops.map(lambda v: v if isinstance(v, int) else sum(v) + 31 * len(v))] + downstream(kind)
     if kind == 'running_sum':
         return [rs.ops.scan(lambda a, x: a + x, 0)]
     if kind == 'distinct':
@@ -106,7 +118,7 @@ class C13(Check):
                    'expected outputs come from fault-free executions of transformed pipelines (item absent / item replaced), i.e. the fault-free behaviour of map/filter/scan is trusted here and checked by C01/C09']
     ANCHORS = ['rxsci/operators/map.py', 'rxsci/operators/filter.py', 'rxsci/operators/scan.py', 'rxsci/operators/starmap.py',
                'rxsci/error/ignore.py', 'rxsci/error/map.py', 'rxsci/error/router.py', 'rxsci/operators/multiplex.py', 'rxsci/operators/group_by.py']
-    REQUIRED_TAGS = ['op=' + o for o in FAIL_OPS] + ['handler=' + h for h in HANDLERS] + ['top', 'group', 'all-fail', 'first-fails', 'last-fails', 'consecutive', 'no-fault']
+    REQUIRED_TAGS = ['op=' + o for o in FAIL_OPS] + ['handler=' + h for h in HANDLERS] + ['top', 'group', 'all-fail', 'first-fails', 'last-fails', 'consecutive', 'no-fault', 'over-64-keys']
     REQUIRED_OBSERVED = ['mux_errors_observed', 'dead_letters_compared', 'fatal_errors_observed', 'outputs_compared']
 
     def generate(self, rng, tier, shard, nshards):
@@ -130,6 +142,14 @@ class C13(Check):
     def _random(self, rng, tier):
         k = 1500 if tier == 'quick' else 10 ** 7
         for j in range(k):
+            if j % 100 == 50:
+                # scale: 70-300 interleaved keys (state tables grow beyond their first blocks while some keys only ever failed)
+                n = rng.choice([300, 700])
+                ng = rng.choice([70, 130, 300])
+                F = sorted(set(range(0, n, rng.choice([3, 8]))) | set(rng.sample(range(n), 20)))
+                yield {'op': FAIL_OPS[(j // 100) % len(FAIL_OPS)], 'handler': HANDLERS[(j // 500) % 3], 'down': rng.choice(DOWNSTREAM),
+                       'ctx': 'group', 'ngroups': ng, 'n': n, 'F': F, 'perm_seed': rng.randrange(1 << 30), 'first_fail_per_key': True}
+                continue
             n = rng.choice([8, 12, 20, 40])
             F = sorted(rng.sample(range(n), rng.choice([1, 2, n // 3, n // 2, n - 1, n])))
             yield {'op': FAIL_OPS[j % len(FAIL_OPS)], 'handler': HANDLERS[(j // 5) % len(HANDLERS)], 'down': rng.choice(DOWNSTREAM),
@@ -143,6 +163,8 @@ class C13(Check):
         r = random.Random(case['perm_seed'])
         ng = case['ngroups'] if case['ctx'] == 'group' else 1
         groups = [r.randrange(ng) for _ in range(case['n'])]
+        if case.get('first_fail_per_key'):
+            groups = [i % ng for i in range(case['n'])]          # round-robin: every key is created before any gets a second item
         if case['op'] == 'starmap':
             return [(groups[i], i) for i in range(case['n'])], groups
         return list(range(case['n'])), groups
@@ -175,7 +197,7 @@ class C13(Check):
                 _oc()
             errors.subscribe(on_next=dead.on_next, on_error=dead.on_error, on_completed=oc)
             ops_.append(route())
-        ops_ += downstream(case['down'])
+        ops_ += downstream(case['down'], listy=(case['op'] == 'scan_list'))
         if case['ctx'] == 'group':
             gof = {i: g for i, g in enumerate(groups)}
             keyf = (lambda x: gof[item_id(x)])
@@ -204,6 +226,8 @@ class C13(Check):
             if any(i + 1 in F for i in F):
                 out.tags.append('consecutive')
         ng = case['ngroups'] if case['ctx'] == 'group' else 1
+        if ng > 64:
+            out.tags.append('over-64-keys')
         if F and any(i not in F and groups[i] == groups[f] for f in F for i in range(n)):
             out.nontrivial = True
 
